@@ -988,6 +988,14 @@ def _may_iterate(t: T, obj: T) -> bool:
             return holds(it.args[0], depth + 1) or any(
                 holds(T("list", a), depth + 1) or holds(a, depth + 1)
                 for a in it.args[2])
+        if it.op == "upd":
+            # a dict / list with one slot stored: what it held plus the value
+            return it.args[2] is obj or holds(it.args[0], depth + 1)
+        if it.op == "call" and tm.callee_name(it) in (
+                ".items", ".values", ".copy") and not it.args[1]:
+            return holds(tm.method_recv(it), depth + 1)
+        if it.op == "call" and tm.callee_name(it) == "builtins.dict":
+            return any(holds(a, depth + 1) for a in it.args[1])
         if it.op in ("loopvar", "loopout"):
             return holds(it.args[2], depth + 1) or (
                 it.op == "loopout" and holds(it.args[3], depth + 1))
@@ -1053,6 +1061,30 @@ def _subjects(ctx, f, res, step_events, ref_traj):
             "project": {"est", "ref"}, "t_offset": {"est"},
             "align": {"est"}, "align_origin": {"est"}, "transform": {"est"}}
     for name, want in need.items():
+        # a step that is skipped for *some* trajectories — its call stands
+        # under a condition on the trajectory it is applied to, not only on
+        # the options — is the documented step only if the skipped call
+        # would have been a no-op: data, not shape
+        for e in step_events[name]:
+            subj = e.data.get("recv") if "traj" not in (
+                e.data.get("bound") or {}) else e.data["bound"]["traj"]
+            root = subj
+            while isinstance(root, T) and root.op in ("attr", "sub") and \
+                    root.op != "elem":
+                root = root.args[0]
+            if not isinstance(root, T) or e.live is None:
+                continue
+            if root.op == "elem" or root is ref_traj:
+                dep = [a for a in tm.atoms(e.live)
+                       if any(x is root for x in a.walk())
+                       and not (root is ref_traj and a is ref_traj)]
+
+                if dep:
+                    ctx.undecidable(
+                        "C15.9", e, f"`{name}` at {e.where} is skipped for "
+                        f"trajectories chosen by their data "
+                        f"({fmt(dep[0])[:80]}): the documented step only if "
+                        f"the skipped call is a no-op")
         got = set().union(*[of(e) for e in step_events[name]])
         ok = want <= got
         ctx.ob("C15.9", step_events[name][0], ok,
